@@ -380,3 +380,17 @@ def history_materialise(ctx, m, warm, name="plt00100", rate=6, tag="hist"):
         pass
     ctx.default_cwd = db          # every later run_tool without an explicit cwd runs in the second directory
     return name, db, os.path.join(db, name), mode
+
+
+def draw_read_fault(src, m, plt_abs, tag="rf", max_level=None):
+    """A part-way read fault (core.FaultyRaw) on one binary file of plotfile `m` materialised at `plt_abs`:
+    returns ({abs path: spec}, description).  Used by the fault-injecting configurations of the writers: a tool
+    that RETURNS NORMALLY under the fault is judged like any other run."""
+    top = m.nlev - 1 if max_level is None else max_level
+    lv = src.draw(f"{tag}.lv", 0, top)
+    names = sorted({f for f, _ in m.layout[lv]})
+    fname = names[src.draw(f"{tag}.file", 0, len(names) - 1)]
+    where = src.choice(f"{tag}.where", ["middle", "last-byte", "fab-header", "after-first-line"])
+    if where == "fab-header":
+        where = f"fab-header:{src.draw(f'{tag}.fab', 0, 3)}:0"
+    return {os.path.join(plt_abs, f"Level_{lv}", fname): ("EIO-MID", where)}, f"EIO-MID@{where} in Level_{lv}/{fname}"
